@@ -425,6 +425,17 @@ func (g *Gen) unop(x *ssa.UnOp, st *State, r string) {
 		t := g.loadTypeH(st, g.val(x.X).T, et, g.addrHint(x.X))
 		v := g.defVal(x, t)
 		g.assume(g.typeFacts(st, v.T, et))
+		if gl, ok := x.X.(*ssa.Global); ok {
+			name := gl.Name()
+			if gl.Pkg != nil {
+				name = gl.Pkg.Pkg.Path() + "." + name
+			}
+			if f, ok := g.prog.specs.GlobalFacts[name]; ok {
+				env := g.envFor(map[string]Val{"value": v}, st, st)
+				g.assume(env.trBool(f))
+				g.stats.TrustedUsed["globalfact "+name] = true
+			}
+		}
 	case token.NOT:
 		g.defVal(x, "(not "+g.val(x.X).T+")")
 	case token.SUB:
